@@ -298,10 +298,10 @@ PROPS = {
             "`==` on [u8] is element-wise (vstd PartialEqSpec for slices)",
         ],
         "not_covered": [
-            "parse_request_line (str::from_utf8, url::Url) and the split/map line iteration in try_read",
+            "parse_request_line's str::from_utf8 / url::Url (assumed); the split/map line iteration of try_read enters through a rule-S1 stand-in (unit tryread)",
             "that the safe_regex matcher implements the regular expression literal (assumed contract of Matcher2::match_slices, keyed to the exact literal)",
             "process panic hook / 'task silently killed'",
-            "read_http_request's buf.shift() before reading (first statement of an async fn with iterator chains)",
+            "the rest of read_http_request between its regions (the struct literal at the end, ContentType / Expect derivation)",
         ],
     },
     "C19": {
@@ -589,7 +589,7 @@ PROPS = {
             "assumed std contracts: String::from_utf8 / str::from_utf8 on ASCII, str::starts_with(char), slice to_vec; url::Url stand-in (Url::parse of the constant base succeeds)",
             "latin1_bytes_to_utf8 maps byte i to the character with that code point (iterator chain, assumed)",
         ],
-        "not_covered": ["target -> Url path / query", "order of header fields, CRLF vs bare LF line splitting (split/map chain in try_read)",
+        "not_covered": ["target -> Url path / query", "the std meaning of `split(LF).map(trim_trailing_cr)` (rule-S1 stand-in split_lines_vec in unit tryread; c02 compares the real chain, incl. bare-LF line ends)",
                         "capture-group boundaries of the regex (only the language and the group count are decided)"],
     },
 }
